@@ -173,7 +173,8 @@ class Inventory(ast.NodeVisitor):
                 self.global_writes.update(n.names)
         # nonlocal rebinding inside a closure factory makes the closure stateful
         if node.name in CLOSURE_FACTORIES:
-            self.closure_factories_ok[node.name] = not any(isinstance(n, ast.Nonlocal) for n in ast.walk(node))
+            self.closure_factories_ok[node.name] = (not any(isinstance(n, ast.Nonlocal) for n in ast.walk(node))
+                                                    and self._factory_hands_out_stateless(node))
         for d in node.args.defaults + [d for d in node.args.kw_defaults if d is not None]:
             k = classify_value(d, set())
             if k in ("constCollection", "mutable") and not (isinstance(d, ast.Call) and dotted(d.func).split(".")[-1] in ("field",)):
@@ -182,6 +183,49 @@ class Inventory(ast.NodeVisitor):
         self.func_depth += 1
         self.generic_visit(node)
         self.func_depth -= 1
+
+    @staticmethod
+    def _own_nodes(fn):
+        """nodes of a function body without the bodies of nested functions / classes / lambdas"""
+        todo = list(fn.body)
+        while todo:
+            n = todo.pop()
+            if isinstance(n, (ast.FunctionDef, ast.AsyncFunctionDef, ast.ClassDef, ast.Lambda)):
+                continue
+            yield n
+            todo.extend(ast.iter_child_nodes(n))
+
+    def _factory_hands_out_stateless(self, node) -> bool:
+        """what a closure factory returns carries no state of its own: it returns nested functions, parameters, results of other
+        closure factories or instances of stateless classes — not an instance whose methods store to self — and no nested
+        function mutates, in place, a collection created in the factory's own body (a cell shared by all calls of the closure)"""
+        own = list(self._own_nodes(node))
+        nested = [n for n in node.body if isinstance(n, (ast.FunctionDef, ast.AsyncFunctionDef))]
+        for n in own:
+            if isinstance(n, ast.Return) and n.value is not None:
+                v = n.value
+                if isinstance(v, (ast.Name, ast.Constant, ast.Lambda)):
+                    continue
+                if isinstance(v, ast.Call):
+                    base = dotted(v.func).split(".")[-1]
+                    if base in CLOSURE_FACTORIES or base in STATELESS_CLASSES or base in ("partial",):
+                        continue
+                return False
+        cells = set()
+        for n in own:
+            if isinstance(n, (ast.Assign, ast.AnnAssign)) and classify_value(getattr(n, "value", None), set()) in ("constCollection", "mutable"):
+                for t in (n.targets if isinstance(n, ast.Assign) else [n.target]):
+                    if isinstance(t, ast.Name):
+                        cells.add(t.id)
+        for f in nested:
+            for n in ast.walk(f):
+                if isinstance(n, ast.Call) and isinstance(n.func, ast.Attribute) and n.func.attr in MUTATORS and isinstance(n.func.value, ast.Name) and n.func.value.id in cells:
+                    return False
+                if isinstance(n, (ast.Assign, ast.AugAssign)):
+                    for t in (n.targets if isinstance(n, ast.Assign) else [n.target]):
+                        if isinstance(t, ast.Subscript) and isinstance(t.value, ast.Name) and t.value.id in cells:
+                            return False
+        return True
 
     def _returns_stateless(self, node) -> bool:
         rets = [n.value for n in ast.walk(node) if isinstance(n, ast.Return)]
